@@ -44,6 +44,13 @@ def particle(E, em, had, depth=-1000.0):
     return NS(energy=E, vertex=np.array([0.0, 0.0, depth]), id=None, interaction=NS(em_frac=em, had_frac=had))
 
 
+def impl_signal(case, **over):
+    """The real signal object for a case dict (not yet evaluated)."""
+    c = dict(case, **over)
+    times = np.asarray(c["times"], dtype=float)
+    return cls_of(c["model"])(times, particle(c["E"], c["em"], c["had"]), c["psi"], c["R"], ice_model=FixedIce(c["n"]), t0=c["t0"])
+
+
 def impl_values(case, **over):
     """Run the real class on a case dict (optionally with overridden fields); returns ndarray or raises."""
     c = dict(case, **over)
@@ -719,6 +726,89 @@ def probes(ctx, mult=1, models=MODELS):
                         fail("joint_shift", dict(c, t0=t0), "shower %g samples after times[0]: shifting grid and shower time together by %r changes the values by %.3g" % (
                             n0 + frac, sft, float(np.abs(v - vs).max())), s=sft)
 
+    # ---- second step after construction: with_times (longer / finer / coarser / disjoint / contained grids), set_buffers, addition,
+    #      for every constructor branch (zero energy, no fractions, exactly on the cone with either sign, angle 0 / pi, em / had only,
+    #      ordinary).  Oracle: a FRESH object built directly on the requested grid (contained grids and buffers: on the grid extended
+    #      by ceil(buffer/dt) samples, sliced) -- the result must be that pulse, len(values) == len(times), identically zero for no shower.
+    for model in MODELS:
+        for it in range(ctx.n(6, 50) * mult):
+            c = probe_case(rng, model)
+            dt = c["dt"]
+            N = rng.choice([rng.randint(6, 40), 33, 16])
+            t00 = c["times"][0]
+            c["times"] = [t00 + i * dt for i in range(N)]
+            c["t0"] = t00 + (rng.randint(0, N - 1) + rng.choice([0.0, 0.5, 0.25])) * dt
+            tc = theta_c(c["n"])
+            variant = rng.choice(["ordinary", "E0", "frac0", "oncone+", "oncone-", "psi0", "psipi", "em", "had", "E0", "frac0"])
+            c.update({"ordinary": {}, "E0": {"E": 0.0}, "frac0": {"em": 0.0, "had": 0.0}, "oncone+": {"psi": tc}, "oncone-": {"psi": -tc},
+                      "psi0": {"psi": 0.0}, "psipi": {"psi": math.pi}, "em": {"em": 1.0, "had": 0.0}, "had": {"em": 0.0, "had": 1.0}}[variant])
+            if near_critical(c):
+                continue
+            no_shower = variant in ("E0", "frac0")
+            a, b = rng.randint(1, N // 2 - 1), rng.randint(1, N // 2 - 1)
+            K = rng.randint(N + 1, 3 * N)
+            grids = {"longer": [t00 + (i - a) * dt for i in range(N + a + b)],
+                     "finer": [t00 + i * (dt / 2) for i in range(2 * N + 3)],
+                     "coarser": [t00 - dt + i * (2 * dt) for i in range(N)],
+                     "disjoint": [t00 + (K + i) * dt for i in range(N + 1)],
+                     "shorter-overlapping": [t00 + (N - a + i) * dt for i in range(a + 2)]}
+
+            def judge(what, sig, grid, expect, exact, zero=None):
+                try:
+                    v = np.array(sig.values, dtype=float)
+                except Exception as e:
+                    fail("second_step", c, "%s [%s branch]: evaluating .values raises %s: %s" % (what, variant, type(e).__name__, str(e)[:150]), op=what, variant=variant)
+                    return
+                count("second_step")
+                ok = len(v) == len(grid) == len(sig.times) and np.all(np.isfinite(v))
+                if ok and (no_shower if zero is None else zero):
+                    ok = not np.any(v != 0)
+                if ok and expect is not None:
+                    pk = float(np.abs(expect).max())
+                    ok = np.array_equal(v, expect) if exact else float(np.abs(v - expect).max()) <= PEAK_TOL * pk
+                if not ok:
+                    fail("second_step", c, "%s [%s branch]: len(values)=%d for len(times)=%d; %s" % (
+                        what, variant, len(v), len(grid),
+                        "not the pulse a fresh object gives on that grid (max difference %.3g)" % float(np.abs(v - expect).max())
+                        if expect is not None and len(v) == len(expect) else ("non-zero / non-finite values" if len(v) == len(grid) else "wrong length")),
+                        op=what, variant=variant)
+
+            def fresh(grid, **over):
+                try:
+                    return impl_values(c, times=grid, **over)
+                except Exception:
+                    return None
+            try:
+                sig = impl_signal(c)
+                for name, g in grids.items():                       # not contained: no buffers, the closure is re-evaluated on g
+                    judge("with_times(%s grid)" % name, sig.with_times(np.array(g)), g, fresh(g), True)
+                inner = c["times"][a:N - b]                         # contained: buffers a*dt / b*dt, evaluated on the old grid and windowed
+                full = fresh(c["times"])
+                judge("with_times(contained grid)", sig.with_times(np.array(inner)), inner, None if full is None else full[a:N - b], False)
+                lead, trail = rng.choice([a * dt, (a - 0.5) * dt]), rng.choice([b * dt, 0.0, (b - 0.25) * dt])
+                nb, na = math.ceil(lead / dt), math.ceil(trail / dt)
+                ext = [t00 + (i - nb) * dt for i in range(N + nb + na)]
+                fe = fresh(ext)
+                sb = impl_signal(c)
+                sb.set_buffers(leading=lead, trailing=trail)
+                judge("set_buffers(%g dt, %g dt)" % (lead / dt, trail / dt), sb, c["times"], None if fe is None else fe[nb:nb + N], False)
+                # addition, then a second step on the sum
+                c2 = dict(c, E=float(10 ** rng.uniform(3, 11)), em=0.5, had=0.5, psi=tc + 0.05)
+                if not near_critical(c2):
+                    f1, f2 = fresh(c["times"]), impl_values(c2)
+                    judge("signal + other Askaryan signal", impl_signal(c) + impl_signal(c2), c["times"], None if f1 is None else f1 + f2, True, zero=False)
+                    g = grids["longer"]
+                    f1g, f2g = fresh(g), impl_values(c2, times=g)
+                    judge("(signal + other).with_times(longer grid)", (impl_signal(c) + impl_signal(c2)).with_times(np.array(g)), g,
+                          None if f1g is None else f1g + f2g, True, zero=False)
+                    import pyrex.signals as sigs
+                    plain = sigs.Signal(np.array(c["times"]), np.arange(N) * 1e-3, value_type=sigs.Signal.Type.field)
+                    judge("signal + plain Signal", impl_signal(c) + plain, c["times"], None if f1 is None else f1 + np.arange(N) * 1e-3, True, zero=False)
+                back = sig.with_times(np.array(grids["disjoint"])).with_times(np.array(c["times"]))
+                judge("with_times(disjoint).with_times(original grid)", back, c["times"], full, True)
+            except Exception as e:
+                fail("second_step", c, "[%s branch] second-step operation raises %s: %s" % (variant, type(e).__name__, str(e)[:200]), variant=variant)
+
     # ---- finiteness / graceful failure over the whole declared input space (cheap models everywhere, ARZ away from the
     #      unaffordable band 1e-6 < |theta - theta_c| < 5e-3 where dt_divider reaches 1e4..1e6)
     for model in MODELS:
@@ -754,9 +844,14 @@ def probes(ctx, mult=1, models=MODELS):
     deltas = [0.0, 0.005, 0.01, 0.02, 0.04, 0.08, 0.16]
     for model in MODELS:
         for it in range(ctx.n(6, 60) * mult):
-            c = probe_case(rng, model, resolved=(model == "ARZ"))
-            if model == "ARZ" and not 1.3 <= c["n"] <= 1.8:
-                c["n"] = float(rng.uniform(1.3, 1.8))    # the sampled ARZ peak probe is only claimed in the regime it was validated in (ice)
+            global SWEEP
+            sweep_saved = SWEEP
+            if model == "ARZ":
+                SWEEP = False     # the sampled ARZ peak probe is only claimed in the nominal regime it was validated in (ice, E >= 1e3 GeV)
+            try:
+                c = probe_case(rng, model, resolved=(model == "ARZ"))
+            finally:
+                SWEEP = sweep_saved
             N, dt = len(c["times"]), c["dt"]
             tc = theta_c(c["n"])
             if model == "ZHS":
